@@ -20,7 +20,7 @@ MANIFEST = dict(
          'the public srctools API with concretised strings and exact numbers, every step must be the step VmfDocOps.Apply takes, '
          'and after export -> parse -> export the re-read document must equal Expected(opts, doc) clause by clause (strings exact, '
          'coordinates to 6 places, rotation/delay/multiblend to 6 significant digits, IDs a bijection per kind), the first text '
-         'must have the block/key structure Skeleton(doc) demands and the second text must be the first under the ID renumbering; '
+         'is read structurally to find the map\'s objects in it (object census, in order), the second and third text must be the first under the ID renumbering; '
          'seeded random documents far outside the bounds and every .vmf under tests/ are validated the same way.',
     design_ref='4 (C06)',
     note='Trusts TLC, the projection (attribute reads of the object graph) and the 30-line independent tokeniser of the exported '
